@@ -214,10 +214,10 @@ pub fn run(ctx: &mut Ctx) {
     ctx.rule = "acknowledged mode, sizes {0,1,seg-1,seg,seg+1,3seg}, 6 NAK procedures (deferred/immediate x delay 0/50 ms/1.5 s), CRC on/off, closure on/off, limit 3, \
 Ta=2 Tn=3 Ti=9 s. A fault-free baseline gives n datagrams per direction; then every placement of F faults from {drop, duplicate(+1 ms, +40 ms), delay(3 ms, 9 ms)} over \
 ordinals 0..n+F of each direction: F=1 exhaustive (also with the transaction tasks polled late, hook H5); F=2 exhaustive for pairs of drops (quick and thorough) and for pairs of any kinds (thorough), proptest-sampled mixed pairs in quick; \
-both faults may hit a PDU and its retransmission (ordinals are per direction as emitted). Non-trivial = at least one fault hit a datagram; distinct by the whole scenario."
+both faults may hit a PDU and its retransmission (ordinals are per direction as emitted). Part multi-round-no-pdu-lost-thrice: per configuration with >= 2 segments, five losses of which none hits a PDU three times in a row (the first two data segments, the retransmission of the second, the next two NAKs; ordinals learned adaptively). Non-trivial = at least one fault hit a datagram; distinct by the whole scenario."
         .into();
     ctx.assumptions = vec![
-        "F < limit (3) and the inactivity timeout exceeds ack and NAK timeouts, as the statement requires".into(),
+        "F < limit (3) - in the multi-round part: fewer than 3 consecutive losses of any one PDU - and the inactivity timeout exceeds ack and NAK timeouts, as the statement requires".into(),
         "faults after the success reports (e.g. the receiver's ack limit when the one-shot ACK(Finished) was lost) are not judged here".into(),
     ];
     let part = C02Part;
@@ -295,6 +295,42 @@ both faults may hit a PDU and its retransmission (ordinals are per direction as 
         ctx.section = "F=2-all-kinds-exhaustive".into();
         ctx.drive_list(&part, cases, true);
     }
+    // several NAK rounds, each PDU lost fewer than `limit` times in a row: the first two data segments are lost in the first pass,
+    // the retransmission of the second is lost again, and so are the next two NAKs - five losses, none three times in a row
+    // (limit 3). The ordinals are learned adaptively from runs with the faults chosen so far.
+    let mut cases = vec![];
+    for (sc, _, _) in &base {
+        let seg = sc.entities[0].cfg.seg as u64;
+        if sc.puts[0].file.as_ref().map(|f| f.size as u64 <= seg).unwrap_or(true) {
+            continue;
+        }
+        let drop = |from: usize, to: usize, ordinal: u32| Fault { from, to, ordinal, kind: FaultKind::Drop };
+        let mut s = sc.clone();
+        s.health_check = false;
+        s.faults = vec![drop(0, 1, 1), drop(0, 1, 2)];
+        let tr = run_scenario(&s);
+        let offset_of = |d: &Dgram| match d.pdu.as_ref().map(|p| &p.payload) {
+            Some(cfdp_core::pdu::PDUPayload::FileData(cfdp_core::pdu::FileDataPDU::Unsegmented(fd))) => Some(fd.offset),
+            _ => None,
+        };
+        let Some(b2) = tr.dgrams.iter().find(|d| d.from == 0 && d.to == 1 && !d.injected && d.ord > 2 && offset_of(d) == Some(seg)) else {
+            continue;
+        };
+        s.faults.push(drop(0, 1, b2.ord));
+        let t_b2 = b2.t;
+        // the next NAK after that loss, and - once that one is lost too - the one after it
+        for _ in 0..2 {
+            let tr = run_scenario(&s);
+            let lost: Vec<u32> = s.faults.iter().filter(|f| f.from == 1).map(|f| f.ordinal).collect();
+            if let Some(d) = tr.dgrams.iter().find(|d| d.from == 1 && d.to == 0 && !d.injected && d.t > t_b2 && kind_of(&d.pdu) == Kind::Nak && !lost.contains(&d.ord)) {
+                s.faults.push(drop(1, 0, d.ord));
+            }
+        }
+        s.health_check = sc.health_check;
+        cases.push(C02Case { sc: s });
+    }
+    ctx.section = "multi-round-no-pdu-lost-thrice".into();
+    ctx.drive_list(&part, cases, true);
     let n = ctx.tier.pick(40_000u64, 1_000_000);
     let base2 = base.clone();
     let strat = (0..base2.len(), any::<u64>(), proptest::collection::vec((any::<bool>(), 0u32..40, 0usize..5), 2..=2)).prop_map(move |(bi, seed, fs)| {
